@@ -3,7 +3,7 @@
 import json, os, sys
 ROOT = os.path.dirname(os.path.dirname(os.path.abspath(__file__)))
 BOOK_NOTE = ('Assumed: soundness of Verus/Z3; vstd specifications of Vec/BTreeMap/Option; the assumed contracts listed in DESIGN.md 3.3 (BTreeMap::first_key_value returns a minimum key, '
-             'core::cmp::min, core::array::from_fn, float operations total); the syntactic rewrite rules R1-R13 of DESIGN.md 3.1 (every application is listed in the evidence); '
+             'core::cmp::min, core::array::from_fn, float operations total); the syntactic rewrite rules R1-R14 of DESIGN.md 3.1 (every application is listed in the evidence); '
              'validity preconditions of the property statement (ids exist, volumes >= 1, prices in range, totals < 2^32, clock monotone, clock discipline). Machine integers are NOT idealised. '
              'save_json/load_json, Display impls and get_orders are not under contract.')
 PY_NOTE = BOOK_NOTE + ' Additionally assumed (stand-ins, listed in the evidence): PyO3 types are opaque; to_pyarray yields the slice elements in order; PyValueError::new_err / OrderError::to_string are opaque; Option::filter keeps the value iff the predicate holds; Xoroshiro128StarStar is an opaque RngCore.'
@@ -31,41 +31,48 @@ CHECKS = {
             'Verus loop invariant on the snapshot rebuild; serde trusted', BOOK_NOTE + ' serde round trip assumed field-wise; save_json/load_json (file I/O, truncation) are NOT covered by this check.'),
     'C08': ('proof', 'Verus: Env::step and MarketEnv::step carry a loop invariant over an arbitrary permutation q of the queue (all that is assumed of shuffle): after i iterations the book view equals '
             'run(reset(view0), q[..i], start) where run replays the instructions on the abstract book at times start+i using the reference event function; postcondition: queue empty, clock == start+step, '
-            'exists q permutation with view == run(...) at start+step, step volume == book counter. Unbounded in batch length, assets, levels.',
-            'Verus loop invariant over an assumed-permutation shuffle; fold of the reference event function', BOOK_NOTE + ' Additionally assumed: core::mem::take returns the old value and leaves an empty Vec; SliceRandom::shuffle yields SOME permutation of the slice (multiset equality) and nothing else; the generator is opaque; rewrite rule R6 (enumerate / iter_mut / take loops written as the counter or index walk they abbreviate). Batch validity (every instruction valid for the book it meets, batch no longer than the step size, no clock overflow) is the precondition, as in the property statement.'),
+            'exists q permutation with view == run(...) at start+step, step volume == book counter; the schedule is the one permutation `shuffled(queue, generator state)` and the generator is handed back as `shuffle_rng(queue, generator state)` (the step threads the supplied generator and nothing else). Unbounded in batch length, assets, levels.',
+            'Verus loop invariant over an assumed-permutation shuffle; fold of the reference event function', BOOK_NOTE + ' Additionally assumed: core::mem::take returns the old value and leaves an empty Vec; SliceRandom::shuffle yields SOME permutation of the slice (multiset equality) and that permutation and the generator\'s next state are functions of the slice and the generator state (nothing about WHICH permutation); the generator is opaque; rewrite rule R6 (enumerate / iter_mut / take loops written as the counter or index walk they abbreviate). Batch validity (every instruction valid for the book it meets, batch no longer than the step size, no clock overflow) is the precondition, as in the property statement.'),
     'C10': ('proof', 'Verus: the three submit functions of Env and MarketEnv ensure that only the queue grows and (for placements) one New order is appended - trades, clock, flags, index, cached snapshot and all '
             'recorded series are unchanged (frame postconditions); create_order proves that every level-2 record valid for the old book is valid for the new one; the environment invariant '
             'cached == level-2 data of the live book is established by new, re-established by step and preserved by submissions and toggles.',
-            'Verus frame postconditions + environment invariant', BOOK_NOTE + ' Additionally assumed: core::mem::take returns the old value and leaves an empty Vec; SliceRandom::shuffle yields SOME permutation of the slice (multiset equality) and nothing else; the generator is opaque; rewrite rule R6 (enumerate / iter_mut / take loops written as the counter or index walk they abbreviate). Batch validity (every instruction valid for the book it meets, batch no longer than the step size, no clock overflow) is the precondition, as in the property statement.'),
+            'Verus frame postconditions + environment invariant', BOOK_NOTE + ' Additionally assumed: core::mem::take returns the old value and leaves an empty Vec; SliceRandom::shuffle yields SOME permutation of the slice (multiset equality) and that permutation and the generator\'s next state are functions of the slice and the generator state (nothing about WHICH permutation); the generator is opaque; rewrite rule R6 (enumerate / iter_mut / take loops written as the counter or index walk they abbreviate). Batch validity (every instruction valid for the book it meets, batch no longer than the step size, no clock overflow) is the precondition, as in the property statement.'),
     'C11': ('proof', 'Verus: append_record ensures each of the 4+4N series == old series + the matching field of the record (bid from bid, ask from ask, level i from index i; generic N); step appends the '
             'level-2 data of the final book and the step counter, which equals the sum of the trades logged in the step, all stamped in [start, start+|batch|); invariant: all series have the length of the '
-            'step-volume series.', 'Verus postconditions on the recording functions + loop invariants', BOOK_NOTE + ' Additionally assumed: core::mem::take returns the old value and leaves an empty Vec; SliceRandom::shuffle yields SOME permutation of the slice (multiset equality) and nothing else; the generator is opaque; rewrite rule R6 (enumerate / iter_mut / take loops written as the counter or index walk they abbreviate). Batch validity (every instruction valid for the book it meets, batch no longer than the step size, no clock overflow) is the precondition, as in the property statement.'),
+            'step-volume series.', 'Verus postconditions on the recording functions + loop invariants', BOOK_NOTE + ' Additionally assumed: core::mem::take returns the old value and leaves an empty Vec; SliceRandom::shuffle yields SOME permutation of the slice (multiset equality) and that permutation and the generator\'s next state are functions of the slice and the generator state (nothing about WHICH permutation); the generator is opaque; rewrite rule R6 (enumerate / iter_mut / take loops written as the counter or index walk they abbreviate). Batch validity (every instruction valid for the book it meets, batch no longer than the step size, no clock overflow) is the precondition, as in the property statement.'),
     'C12': ('proof', 'Verus: create_order returns Ok iff the price is market or on the grid, Err leaves every observable unchanged; the grid predicate over all orders is preserved by every operation '
             'that does not take a new price from the caller.', 'Verus iff-postcondition + grid invariant', BOOK_NOTE),
     'C13': ('proof', 'Verus: with the trading flag off every operation leaves trades and trade_vol unchanged, limit placements/replacements rest at their price, market orders become Rejected with both '
             'sides untouched; the toggles change only the flag.', 'Verus postconditions conditional on the trading flag', BOOK_NOTE),
     'C14': ('proof', 'Verus: every Market operation on asset a ensures the book contract for books[a] and forall j != a: books[j] unchanged (frame); fan-out operations give every book the single-book effect; '
             'all-asset getters return element i == asset i\'s own value; MarketEnv::step: the market view after a shuffled batch equals the fold of per-asset reference events, and a proved projection lemma '
-            'shows asset a\'s view equals a stand-alone book fed a\'s own instructions at the same global times.', 'Verus frame conditions over the book array + projection lemma', BOOK_NOTE + ' Additionally assumed: core::mem::take returns the old value and leaves an empty Vec; SliceRandom::shuffle yields SOME permutation of the slice (multiset equality) and nothing else; the generator is opaque; rewrite rule R6 (enumerate / iter_mut / take loops written as the counter or index walk they abbreviate). Batch validity (every instruction valid for the book it meets, batch no longer than the step size, no clock overflow) is the precondition, as in the property statement.'),
+            'shows asset a\'s view equals a stand-alone book fed a\'s own instructions at the same global times.', 'Verus frame conditions over the book array + projection lemma', BOOK_NOTE + ' Additionally assumed: core::mem::take returns the old value and leaves an empty Vec; SliceRandom::shuffle yields SOME permutation of the slice (multiset equality) and that permutation and the generator\'s next state are functions of the slice and the generator state (nothing about WHICH permutation); the generator is opaque; rewrite rule R6 (enumerate / iter_mut / take loops written as the counter or index walk they abbreviate). Batch validity (every instruction valid for the book it meets, batch no longer than the step size, no clock overflow) is the precondition, as in the property statement.'),
     'C18': ('proof', 'Verus, Rust side only: every #[pymethods] body of OrderBook / StepEnv / StepEnvNumpy within the extractor grammar is verified against the core contracts (a getter wired to the wrong side, a swapped '
             'argument, a dropped instruction or a changed price is a refuted postcondition); cast_order / cast_trade tuple positions and the Side/Status encodings are full-domain postconditions; off-grid '
             'prices give Err and leave the object unchanged. NOT covered (stated in the evidence): the PyO3 glue (argument extraction, OverflowError, exception raising), the compiled module under CPython, '
-            'JSON interop, the list builders get_orders/get_trades (adapter chains) - for these a BOUNDED stand-in (labelled, not counted) drives the compiled module under CPython with 60 seeded call sequences.', 'Verus postconditions on the PyO3 method bodies against the core contracts', PY_NOTE),
+            'JSON interop - for these a BOUNDED stand-in (labelled, not counted) drives the compiled module under CPython with 60 seeded call sequences. The list builders get_orders / get_trades (iter().map(cast_*).collect()) ARE verified against vstd\'s iterator specifications: element i is the documented tuple of order / trade i. A StepEnv is a function of its seed: the constructor seeds the generator from the seed, step() uses the schedule `shuffled(queue, generator)` and stores the generator that shuffle hands back.', 'Verus postconditions on the PyO3 method bodies against the core contracts', PY_NOTE),
     'C19': ('proof', 'Verus, Rust side only: the four observation-array builders are verified against the documented index table written as a spec sequence (lengths 9 and 45, element k == documented quantity), '
             'the history getters return bid series first; the market-data dictionary (HashMap/format!/closures) has no contract within reach: a BOUNDED stand-in (labelled, not counted) checks every key and series, and both arrays, through the compiled module under CPython on 40 seeded simulations; the two Python data-frame helpers (pandas is not installed) are unchecked.',
             'Verus postconditions against the documented layout as a spec sequence', PY_NOTE),
-    'C20': ('proof', 'Verus on the REAL macro expansion: for a stated family of 20 shapes (1..8 fields, non-alphabetical names, repeated member types, members that are sets, field attributes incl. cfg, both macros) '
+    'C20': ('proof', 'Verus on the REAL macro expansion: for a stated family of 28 shapes (1..8 fields, non-alphabetical names, repeated member types, members that are sets, field attributes incl. cfg, one-line structs without trailing comma, both macros) plus dictionary shapes generated on every run from the string literals of the macro crate\'s own source (each planted in doc comments, #[doc] attributes and field names) '
             'the struct is expanded by the working tree\'s derive macro (rustc -Zunpretty=expanded), the generated update body is cut out verbatim and verified: with members of UNINTERPRETED behaviour the set '
             'equals the left-to-right composition over the declared fields, each once, same env and rng; the generated signature is compared with the trait method.',
             'Verus on the macro expansion with uninterpreted member contracts; finite family of shapes', 'Assumed: Verus/Z3; rustc expansion output is the code that is compiled; syn/quote internals not verified; the shapes are a finite family (proof per shape, not for all shapes).'),
-    'C16': ('proof', 'Kani on the real crates. COMPLETE (loop-free, full-domain, counted as proved): the four limit-order helpers (single- and multi-asset) with EVERY price distribution and EVERY generator output - '
-            'buy price on the grid and <= the observed mid, sell price >= the mid and on the grid unless clamped, configured volume / trader / asset; thorough tier adds the two rounding functions over every '
-            'f64 in range. BOUNDED stand-ins (labelled, never counted): cancel_live_orders on two orders (only listed Active orders, p=0 never, p>=1 always), Noise(Market)Agent::update and the momentum '
-            'carry-over on one trader with every callee replaced by a recording stub that is its contract. Known finding: clamp to an off-grid Price::MAX aborts simulations.',
-            'Kani loop-free full-domain harnesses (proof) + bounded Kani harnesses with contract stubs (stand-in)', KANI_NOTE),
-    'C17': ('other', 'BOUNDED only (nothing counted as proved): Kani on the real MomentumAgent / MomentumMarketAgent::update, every callee stubbed by its contract, one trader, 2-4 calls, tanh replaced by a '
-            'sign-preserving saturating model: falling mid -> exactly one sell, rising -> one buy (+ one buy limit order at ratio >= 1), flat -> nothing, signal carried over / reset by the documented recursion '
-            '(decay 1/2). A refutation is accompanied by a witness search on the real agents with real generators.', 'bounded Kani harnesses on the real update bodies with contract stubs', KANI_NOTE),
+    'C16': ('proof', 'Verus (agents unit, unbounded in the number of traders / agents / orders) + Kani on the real crates. VERUS: the four limit-order helpers are verified against Env / MarketEnv::place_order - one order of the '
+            'configured volume and trader quoted at round_down(mid - |draw|) / round_up(mid + |draw|) on the caller\'s grid, or an error that leaves no trace; the update loops of the noise and momentum agents '
+            '(single- and multi-asset) submit only such orders, for their own trader ids, quoted from the mid-price they OBSERVED and their own grid, at most one limit and one market order per trader per call; the '
+            'constructors give the consecutive trader ids, the environment tick size as the grid and a flat signal; RandomAgents / RandomMarketAgents (rule R14) keep one slot per agent: cancel only their own live order, '
+            'place only when they hold no live order, prices tick * tick_size with tick and volume inside the configured ranges, own trader id. KANI COMPLETE (loop-free, full-domain): the numeric side of the same helpers - '
+            'buy price on the grid and <= the observed mid, sell price >= the mid and on the grid unless clamped - with EVERY distribution and generator output; thorough tier adds the two rounding functions over every '
+            'f64 in range. BOUNDED stand-ins (labelled, never counted): the probability thresholds (p = 0 never, p >= 1 always) of cancel_live_orders on two orders and of the update bodies on one trader. '
+            'Known finding: clamp to an off-grid Price::MAX aborts simulations (the eight unwrap() calls).',
+            'Verus contracts + loop invariants on the extracted agent code (helpers, constructors, six update loops) + Kani loop-free full-domain harnesses for the floating-point clauses; bounded Kani harnesses as stand-in for the probability thresholds', KANI_NOTE + ' Verus side: IEEE operations, tanh, abs, the two rounding functions, LogNormal::new and the generator draws are uninterpreted FUNCTIONS (no numeric fact assumed); cancel_live_orders(_market) carry an assumed contract (filter / partition adapters); rule R14 (iter_mut().enumerate().map().collect() -> index loop) is trusted.'),
+    'C17': ('proof', 'Verus (agents unit, any number of traders): both momentum agents store exactly M\' = m (1 - decay) + decay (P - p) computed from the mid-price observed in the call (their own asset\'s, for the multi-asset agent) and remember P; '
+            'the trading propensity is |demand * tanh(scale * M\') / n| (a function of the magnitude only) and the limit-order propensity its product with the order ratio; every order submitted in the call is a buy when M\' > 0, a sell when M\' < 0, '
+            'and nothing is submitted otherwise; the constructors start from M = 0 with n = the number of traders. IEEE operations and tanh / abs are uninterpreted functions here (no numeric fact assumed). '
+            'BOUNDED stand-ins (Kani on the real update bodies, one trader, 2-4 calls, callees stubbed by their contracts): the numeric thresholds - saturated demand trades exactly once per trader in the direction of M, a zero signal trades nothing, '
+            'the signal is carried over / reset through the real floating-point recursion (decay 1/2).',
+            'Verus contracts + loop invariants on the extracted momentum-agent code over uninterpreted IEEE operations; bounded Kani harnesses on the real update bodies for the numeric thresholds', KANI_NOTE + ' Verus side: float-determinism axiom (an IEEE operation is a function of its operands).'),
 }
 NA = {
     'C09': 'Determinism across runs/processes is a 2-safety property of the whole program including rand, rand_distr, kdam and libm; function contracts can only restate `result == f(inputs)`, and both verifiers already assume executable Rust has no hidden inputs, so a contract proof would be vacuous about exactly the nondeterminism sources the property is about (DESIGN.md 5, C09).',
